@@ -25,7 +25,9 @@ def gauss_eig_section(ctx, D, rng, S, thorough):
     for i, form in enumerate(forms):
         variants = [("full-rank", (-34, 0, 30)[(i + ctx.seed) % 3]), ("deficient", (0, -34, 30)[(i + ctx.seed) % 3])]
         if not thorough:
-            variants = [variants[(i // 2 + i + ctx.seed) % 2]]      # cov / sqrtcov (and prec / sqrtprec) get different variants
+            # quick: the pseudo-inverse forms (cov, sqrtcov) always rank-deficient (their full-rank scaled case is in
+            # gauss_scale_bigdim_section); prec / sqrtprec alternate full-rank scaled / deficient with the seed
+            variants = [variants[1]] if form in ("cov", "sqrtcov") else [variants[(i // 2 + ctx.seed) % 2]]
         else:
             variants = [(v, e) for v in ("full-rank", "deficient") for e in (-34, 0, 30)]
         for v, e in variants:
